@@ -601,6 +601,15 @@ def run_layouts(ctx, FST, rnd):
                 variants.append(v)
         except SyntaxError:
             pass
+    # staircase: every element on its own line, each line indented LESS than the one before (a later element at a smaller column)
+    parts = src0.split(', ')
+    if len(parts) > 1 and ('(' in src0 or '[' in src0 or '{' in src0):
+        v = parts[0] + ''.join(',\n' + ' ' * max(1, 13 - 4 * i) + q for i, q in enumerate(parts[1:]))
+        try:
+            if CTX_RE.sub('', ast.dump(ast.parse(v))) == CTX_RE.sub('', ast.dump(ast.parse(src0))):
+                variants.append(v)
+        except SyntaxError:
+            pass
     # comment glued to the end of the container's first line
     ls = src0.split('\n')
     v = '\n'.join([ls[0] + '# tight'] + ls[1:])
@@ -632,6 +641,26 @@ def run_layouts(ctx, FST, rnd):
                 source_agrees(ctx, kind, root, m, f'put_slice({c!r}, {start}, {stop}) on layout variant {v!r}', {'kind': kind, 'variants': [v], 'codes': [c], 'start': start, 'stop': stop})
             except Exception as e:
                 outs.append((v, c, 'EXC:' + type(e).__name__))
+    # arglike containers: a single-element put that switches an element between positional and keyword, on every layout
+    if field in ('_args', '_bases'):
+        for v in variants:
+            n_el = len(extract(kind, ast.parse(v)))
+            for idx in range(n_el):
+                for c in ('zk=0', 'zp', '*zs', '**zd'):
+                    root = FST(v, 'exec')
+                    tgt, _ = get_fst(root, kind)
+                    try:
+                        tgt.put(c, idx, field=field)
+                    except Exception:
+                        ctx.count('arglike_kind_switch_refused')
+                        continue
+                    ctx.count('arglike_kind_switch_puts')
+                    cs = {'kind': kind, 'variants': [v], 'codes': [c], 'start': idx, 'stop': idx + 1, 'single': True}
+                    if source_agrees(ctx, kind, root, extract(kind, root.a), f'put({c!r}, {idx}, {field!r}) on layout variant {v!r}', cs):
+                        from ..base import insync
+                        ok, detail = insync(root)
+                        if ok is False:   # e.g. args / keywords lists no longer in source order
+                            ctx.violation(f'tree-out-of-sync-after-arglike-put:{kind}', f'put({c!r}, {idx}, {field!r}) on {v!r}: tree and source disagree ({detail}); src={root.src!r}', cs)
     # every successful variant must also be in sync with its own source
     ctx.count('layout_variant_groups')
     ctx.count('model_checked', len(outs))
@@ -665,3 +694,24 @@ def replay(ctx, case):
     import random
     if 'kind' in case and 'variants' not in case:
         run_kind(ctx, FST, case['kind'], random.Random(0), (case.get('L', 3),) if 'L' in case else (0, 1, 2, 3))
+    elif 'variants' in case:
+        kind = case['kind']
+        field = KINDS[kind][2]
+        for v in case['variants']:
+            for c in case['codes']:
+                root = FST(v, 'exec')
+                tgt, _ = get_fst(root, kind)
+                try:
+                    if case.get('single'):
+                        tgt.put(c, case['start'], field=field)
+                    else:
+                        tgt.put_slice(c, case['start'], case['stop'], field)
+                except Exception as e:
+                    print('raised', type(e).__name__, e)
+                    continue
+                print(repr(v), repr(c), '->', repr(root.src))
+                if source_agrees(ctx, kind, root, extract(kind, root.a), 'replay', case):
+                    from ..base import insync
+                    ok, detail = insync(root)
+                    if ok is False:
+                        ctx.violation('replayed-out-of-sync', f'{detail}', case)
